@@ -116,8 +116,12 @@ def judge_view(view_kept: dict[int, str] | None, view_keys: set[str] | None, occ
                 continue
             if (o['flag'] & 0x20) and not (o['flag'] & 0x80):
                 continue  # Partial on a well-known attribute: ExaBGP treats it as a flag conflict (see ASSUMPTIONS)
-            if code == 17 and asn4:
-                continue  # RFC 6793 4.1: a 4-octet session ignores AS4_PATH
+            if code == 17 and (asn4 or 18 in codes):
+                continue  # RFC 6793: a 4-octet session ignores AS4_PATH; AGGREGATOR without AS_TRANS voids it
+            if code == 18 and not asn4:
+                continue  # merged into AGGREGATOR (or void) on a 2-octet session
+            if code == 7 and 18 in codes and not asn4:
+                continue  # may carry AS4_AGGREGATOR's value
             if view_kept is not None:
                 if code == 17 and 2 in view_kept:
                     continue  # merged into AS_PATH
